@@ -386,6 +386,7 @@ pub fn run(tier: &str, seed: u64, out: &Path) -> i32 {
         let mut r2 = Rng::new(seed ^ 0x0971);
         crate::optin_corr::cases(&mut o, &mut r2, th);
         crate::vertical_corr::cases(&mut o, &mut r2, th);
+        crate::attrs_corr::cases(&mut o, &mut r2, th);
     }
     o.finish(out, jobs())
 }
